@@ -621,6 +621,8 @@ def _coll_oracle(interp, env, f, args, t, bb, path):
                     keep.append(heap_get(interp, v0.vid)[off + i_])
             view_set(interp, v0, keep)
             return unit
+        if nm in ("chunks", "chunks_exact", "chunks_mut", "chunks_exact_mut", "windows", "rchunks", "rchunks_mut") and len(args) == 2 and isinstance(args[1], int) and not isinstance(args[1], bool) and args[1] == 0:
+            return "DIVERGE"        # std panics: the chunk / window size must be non-zero
         if nm in ("chunks", "chunks_exact", "chunks_mut", "chunks_exact_mut") and isinstance(args[1], int) and args[1] > 0:
             c = args[1]
             refs = [HRef(v0.vid, off + i) for i in range(len(items))]
